@@ -43,8 +43,9 @@ class Gen:
     """Call-free Python functions: straight-line code, if/else, early return, break/continue,
     while / for-in nested <= 2, 2-4 variables."""
 
-    def __init__(self, rng, nvars, size, loops=True):
+    def __init__(self, rng, nvars, size, loops=True, toplevel=False):
         self.rng = rng
+        self.toplevel = toplevel     # module-level code: no `return`
         self.vars = ["x", "y", "z", "w"][:nvars]
         self.size = size            # 1 small .. 3 large
         self.max_if = 1 + size
@@ -80,9 +81,19 @@ class Gen:
         r = rng.random()
         nb = lambda: rng.randint(1, 1 + self.size)
         if r < 0.42 or (ifd >= self.max_if and loopd >= self.max_loop):
-            if rng.random() < 0.12:
+            k = rng.random()
+            if k < 0.12:
                 self.hit("augassign")
                 return [f"{ind}{rng.choice(self.vars)} += {rng.randint(1, 5)}"]
+            if k < 0.34:
+                # an assignment that reads its own target (x = x + 1, x = x + y, x = y + x)
+                self.hit("self_assign")
+                # (never v = v + v, and mostly a constant operand: chains of variable self-additions make lian's
+                #  value analysis blow up — a 190-line loop-free function did not finish in 150 s; reported to C13)
+                v = rng.choice(self.vars)
+                others = [w for w in self.vars if w != v]
+                o = rng.choice(others) if rng.random() < 0.3 else str(rng.randint(1, 9))
+                return [f"{ind}{v} = " + (f"{v} + {o}" if rng.random() < 0.7 else f"{o} + {v}")]
             self.hit("assign")
             return [f"{ind}{rng.choice(self.vars)} = {self.expr()}"]
         if r < 0.70 and ifd < self.max_if:
@@ -99,7 +110,7 @@ class Gen:
                 out += self.block(nb(), ifd + 1, loopd, ind + "    ")
                 out.append(f"{ind}else:")
                 out += self.block(nb(), ifd + 1, loopd, ind + "    ")
-            elif k < 0.62:
+            elif k < 0.62 and not self.toplevel:
                 # both branches leave: what follows has no CFG predecessor
                 self.hit("if_else_both_return")
                 out = [f"{ind}if {self.cond()}:", f"{ind}    return {rng.choice(self.vars)}",
@@ -122,7 +133,7 @@ class Gen:
             if rng.random() < 0.8:
                 return [f"{ind}if {self.cond()}:", f"{ind}    {kw}"]
             return [f"{ind}{kw}"]
-        if r < 0.965:
+        if r < 0.965 and not self.toplevel:
             self.hit("return")
             if rng.random() < 0.8:
                 return [f"{ind}if {self.cond()}:", f"{ind}    return {rng.choice(self.vars)}"]
@@ -139,6 +150,22 @@ class Gen:
         body = self.block(rng.randint(2, 2 + 2 * self.size), 0, 0, "    ")
         body.append(f"    return {rng.choice(self.vars)}")
         return [f"def {name}({', '.join(params)}):"] + body, len(params)
+
+
+def gen_toplevel(rng, n, loops_share=0.7):
+    """n programs whose statements sit at module level: lian analyses each file's `%unit_init` as an ENTRY
+    method (its own symbol/state space, index baseline 0) — a different path through init_compute_frame than
+    a callee frame, whose pre-registered definition nodes are re-indexed after they were hashed."""
+    progs, stats = [], {}
+    for i in range(n):
+        size = rng.choices([1, 2, 3], [0.5, 0.4, 0.1])[0]
+        g = Gen(rng, rng.randint(2, 4), size, loops=(rng.random() < loops_share), toplevel=True)
+        body = g.block(rng.randint(2, 3 + 2 * size), 0, 0, "")
+        body.append(f"{rng.choice(g.vars)} = {rng.choice(g.vars)}")
+        progs.append("\n".join(body) + "\n")
+        for k, v in g.stats.items():
+            stats[k] = stats.get(k, 0) + v
+    return progs, stats
 
 
 def gen_functions(rng, n, loops_share=0.7):
@@ -200,6 +227,33 @@ def pack_source(funs):
     return "\n".join(lines + calls) + "\n"
 
 
+TAG = "lvtag"
+
+
+def is_toplevel_program(src):
+    try:
+        return not any(isinstance(n, ast.FunctionDef) for n in ast.parse(src).body)
+    except SyntaxError:
+        return False
+
+
+def pack_programs(progs, prefix="k"):
+    """programs (each either one function + its call, or module-level code) -> (files, names): function
+    programs share one file under the names <prefix>i; every module-level program gets its own file that
+    starts with `lvtag = i`, by which the worker recognises its %unit_init and calls it top<i>."""
+    files, names, funs = [], [], []
+    for i, src in enumerate(progs):
+        if is_toplevel_program(src):
+            files.append((f"t{i:04d}.py", f"{TAG} = {i}\n" + src))
+            names.append(f"top{i}")
+        else:
+            funs.append(rename_function(src, f"{prefix}{i}"))
+            names.append(f"{prefix}{i}")
+    if funs:
+        files.append(("pack.py", "\n".join(funs)))
+    return files, names
+
+
 def function_source(text, name):
     """the `def name` block of a pack, plus its call line"""
     lines = text.split("\n")
@@ -235,7 +289,7 @@ def _ilist(x):
 
 
 def worker(workdir):
-    """Runs inside a fresh process: one in-process lian run over <workdir>/pack.py."""
+    """Runs inside a fresh process: one in-process lian run over the files in <workdir>/src/."""
     common.use_repo()
     import importlib
     import pandas as pd
@@ -280,7 +334,7 @@ def worker(workdir):
     ps.P2PrelimSemanticAnalysis.analyze_stmts = wrapped_as
     from lian.main import Lian
     ws = os.path.join(workdir, "ws")
-    sys.argv = ["lian", "semantic", "-l", "python", "-w", ws, "-f", "-q", os.path.join(workdir, "pack.py")]
+    sys.argv = ["lian", "semantic", "-l", "python", "-w", ws, "-f", "-q", os.path.join(workdir, "src")]
     t = time.time()
     buf = io.StringIO()
     err = None
@@ -313,6 +367,22 @@ def worker(workdir):
     if gir is not None and cfg is not None and st1 is not None and sp1 is not None and st3 is not None:
         op = {int(r.stmt_id): r.operation for r in gir.itertuples()}
         line = {int(r.stmt_id): (None if r.start_row != r.start_row else int(r.start_row)) for r in gir.itertuples()}
+        def _s(x):
+            return x if isinstance(x, str) and x else None
+        gir_def, tag_of_stmt = {}, {}
+        cols = set(gir.columns)
+        for r in gir.itertuples():
+            o = r.operation
+            tgt = _s(getattr(r, "target", None)) if "target" in cols else None
+            nm = _s(getattr(r, "name", None)) if "name" in cols else None
+            if o in ("variable_decl", "parameter_decl", "forin_stmt", "for_value_stmt"):
+                gir_def[int(r.stmt_id)] = nm
+            elif o in ("block_start", "block_end", "method_decl", "class_decl"):
+                continue
+            else:
+                gir_def[int(r.stmt_id)] = tgt
+            if o == "assign_stmt" and tgt == TAG and "operand" in cols and str(r.operand).isdigit():
+                tag_of_stmt[int(r.stmt_id)] = int(r.operand)
         name_of = {}
         for r in names.itertuples():
             for m in r.method_id:
@@ -334,7 +404,10 @@ def worker(workdir):
         for mid, m in methods.items():
             m["method_id"] = mid
             m["name"] = name_of.get(mid)
-            m["defs"], m["symname"] = {}, {}
+            m["defs"], m["symname"], m["gir_mismatch"] = {}, {}, []
+            for sid in m["status"]:
+                if sid in tag_of_stmt:
+                    m["name"] = f"top{tag_of_stmt[sid]}"
             for sid, (dsym, impl) in m["status"].items():
                 stmt_to_method[sid] = mid
                 ds = []
@@ -344,6 +417,12 @@ def worker(workdir):
                         ds.append(e[1])
                         m["symname"][e[1]] = e[2]
                 m["defs"][sid] = ds
+                # ground truth straight from the GIR row, independent of every lian table: the name this
+                # statement assigns (target of an assignment, name of a declaration / for-in variable)
+                want = gir_def.get(sid)
+                have = m["symname"].get(ds[0]) if ds else None
+                if want != have:
+                    m["gir_mismatch"].append([sid, want, have])
             m["stmts"] = sorted(m["status"])
             m["loops"] = sorted(s for s in m["stmts"] if op.get(s) in constants.LOOP_OPERATIONS)
             m["op"] = {s: op.get(s) for s in m["stmts"]}
@@ -370,6 +449,7 @@ def worker(workdir):
             fr = frames.get(mid, {})
             res["methods"].append({
                 "method_id": mid, "name": m["name"], "edges": m["edges"], "stmts": m["stmts"], "loops": m["loops"],
+                "gir_mismatch": m["gir_mismatch"],
                 "defs": [[s, m["defs"][s]] for s in m["stmts"]],
                 "op": [[s, m["op"][s]] for s in m["stmts"]], "line": [[s, m["line"][s]] for s in m["stmts"]],
                 "symname": [[k, v] for k, v in sorted(m["symname"].items())],
@@ -393,7 +473,7 @@ def n_workers():
 
 
 def run_packs(packs, scratch, timeout, parallel=None):
-    """packs: list of (label, source text). Returns list of result dicts (or {'error':...})."""
+    """packs: list of (label, source text | [(file name, text), …]). Returns list of result dicts (or {'error':...})."""
     parallel = min(parallel or n_workers(), n_workers())
     procs, results = [], [None] * len(packs)
     env = dict(os.environ)
@@ -404,8 +484,10 @@ def run_packs(packs, scratch, timeout, parallel=None):
         while pending and len(running) < parallel:
             i, (label, text) = pending.pop(0)
             wd = os.path.join(scratch, f"p{i}")
-            os.makedirs(wd, exist_ok=True)
-            open(os.path.join(wd, "pack.py"), "w").write(text)
+            os.makedirs(os.path.join(wd, "src"), exist_ok=True)
+            files = [("pack.py", text)] if isinstance(text, str) else text
+            for fname, ftext in files:
+                open(os.path.join(wd, "src", fname), "w").write(ftext)
             p = subprocess.Popen([sys.executable, HERE, "--worker", wd], env=env,
                                  stdout=subprocess.DEVNULL, stderr=subprocess.PIPE, text=True)
             running.append((i, wd, p, time.time()))
@@ -578,7 +660,8 @@ def evaluate(methods, params):
             all(orc["must"][s] <= iin[s] for s in m["stmts"] if s in orc["reach"])
         m["v"] = {"corr_diffs": diffs, "lost": lost, "dead": dead, "ideal_ok": bool(ideal_ok),
                   "cyclic": orc["cyclic"], "multi_entry": orc["multi_entry"], "once_ok": orc["once_ok"],
-                  "skips": mo["skips"], "finished": mo["finished"], "ideal_converged": idl["converged"],
+                  "skips": mo["skips"], "skip_stmts": mo.get("skip_stmts", []), "finished": mo["finished"],
+                  "defs_of": defs, "ideal_converged": idl["converged"],
                   "ideal_topo": idl["topo"], "ideal_sweeps": idl["sweeps"], "real_fixpoint": chk["fixpoint"],
                   "model_visits": mo["visits"], "model_in": mo["in"], "exact": all(rin[s] == orc["may"][s] for s in m["stmts"] if s in orc["reach"]),
                   "n_reach": sum(1 for s in m["stmts"] if s in orc["reach"]),
@@ -592,29 +675,47 @@ def pretty_defs(m, ds):
     return sorted(f"{sn.get(a, a)}@line{ln.get(b)}(stmt {b})" for a, b in ds)
 
 
-def finding_for(v):
-    """MODEL-PREDICTED matcher (DESIGN §2.5).  Returns the finding id when the violation on this method is
-    the recorded one, else None.  Only *lost* definitions can be known; a retained dead definition never is."""
-    if v["dead"] or not v["lost"]:
+def findings_for(v):
+    """MODEL-PREDICTED matcher (DESIGN §2.5).  Returns the set of finding ids that together account for every
+    oracle failure of this method, or None when some failure is not a recorded one.
+    Common to all three: (1) the real visit sequence, in sets and out sets equal the frozen faithful model's
+    on the real CFG, and (3) the idealised solver passes the oracle on the same input.
+    * lost definitions  -> C06/loop-def-lost (cyclic CFG) / C06/dag-join-def-lost (acyclic CFG)
+    * dead definitions  -> C06/kill-skipped-dead-def, only if the frozen model itself took the
+      `if key in current_bits: continue` shortcut in this run and every retained dead definition is a definition
+      of a symbol defined by a statement at which the shortcut was taken."""
+    if not (v["lost"] or v["dead"]):
+        return set()
+    if v["corr_diffs"] or not v["ideal_ok"]:
         return None
-    if v["corr_diffs"]:
-        return None            # (1) real output != frozen faithful model's output: something else is going on
-    if not v["ideal_ok"]:
-        return None            # (3) the repaired (idealised) model must pass the oracle on the same input
-    return "C06/loop-def-lost" if v["cyclic"] else "C06/dag-join-def-lost"
+    ids = set()
+    if v["lost"]:
+        ids.add("C06/loop-def-lost" if v["cyclic"] else "C06/dag-join-def-lost")
+    if v["dead"]:
+        skipped_syms = {sym for u in v["skip_stmts"] for sym in v["defs_of"].get(u, [])}
+        if not v["skip_stmts"] or any(d[0] not in skipped_syms for ds in v["dead"].values() for d in ds):
+            return None
+        ids.add("C06/kill-skipped-dead-def")
+    return ids
+
+
+def finding_for(v):
+    """printable form of findings_for"""
+    ids = findings_for(v)
+    return None if not ids else "+".join(sorted(ids))
 
 
 # ====================================================================== shrinking (batched through lian)
 def shrink_candidates(src):
-    """single-step reductions of a one-function program: delete a statement, replace a compound statement by
+    """single-step reductions of a one-function (or module-level) program: delete a statement, replace a compound statement by
     (one of) its bodies, drop an else branch."""
     try:
         tree = ast.parse(src)
     except SyntaxError:
         return []
-    fn = next((n for n in tree.body if isinstance(n, ast.FunctionDef)), None)
-    if fn is None:
-        return []
+    def root(t):      # the function of a function program, the module of a module-level program
+        return next((n for n in t.body if isinstance(n, ast.FunctionDef)), t)
+    fn = root(tree)
     out = []
 
     def blocks(node):
@@ -638,8 +739,7 @@ def shrink_candidates(src):
                     variants.append(("noelse", None))
             for kind, which in variants:
                 t2 = ast.parse(src)
-                fn2 = next(n for n in t2.body if isinstance(n, ast.FunctionDef))
-                owner2, field2, blk2 = list(blocks(fn2))[bi]
+                owner2, field2, blk2 = list(blocks(root(t2)))[bi]
                 if kind == "del":
                     del blk2[si]
                 elif kind == "body":
@@ -672,25 +772,32 @@ def rename_function(src, new):
     return ast.unparse(tree) + "\n"
 
 
-def shrink_program(src, still_fails, scratch, params_holder, rounds=8, timeout=120):
-    """greedy batched delta debugging: all single-step reductions of the current program are packed into one
-    lian run; `still_fails(method dict with verdict)` selects survivors; the smallest one is kept."""
+def shrink_program(src, still_fails, scratch, params_holder, rounds=8, timeout=120, chunk=60, deadline=None):
+    """greedy batched delta debugging: the single-step reductions of the current program (smallest results
+    first) are packed, `chunk` at a time, into one lian run each; `still_fails(method dict with verdict)`
+    selects survivors; the smallest survivor of the first chunk that has one is kept."""
     cur = src
     for r in range(rounds):
-        cands = shrink_candidates(cur)[:60]
-        if not cands:
+        cands = sorted(shrink_candidates(cur), key=len)
+        found = None
+        for c0 in range(0, len(cands), chunk):
+            if deadline is not None and time.time() > deadline:
+                return cur
+            part = cands[c0:c0 + chunk]
+            files, names = pack_programs(part, prefix="g")
+            idx = {n: i for i, n in enumerate(names)}
+            res = run_packs([("shrink", files)], os.path.join(scratch, f"shr{r}_{c0}"), timeout, parallel=1)[0]
+            if res.get("error") and not res.get("methods"):
+                continue
+            ms = [m for m in res["methods"] if m["name"] in idx and comparable(m) is None]
+            evaluate(ms, res["params"])
+            ok = [(len(part[idx[m["name"]]]), idx[m["name"]]) for m in ms if still_fails(m)]
+            if ok:
+                found = part[min(ok)[1]]
+                break
+        if found is None:
             break
-        texts = [rename_function(c, f"g{i}") for i, c in enumerate(cands)]
-        res = run_packs([("shrink", "\n".join(texts))], os.path.join(scratch, f"shr{r}"), timeout, parallel=1)[0]
-        if res.get("error") and not res.get("methods"):
-            break
-        params = res["params"]
-        ms = [m for m in res["methods"] if (m["name"] or "").startswith("g") and comparable(m) is None]
-        evaluate(ms, params)
-        ok = [(len(cands[int(m["name"][1:])]), int(m["name"][1:])) for m in ms if still_fails(m)]
-        if not ok:
-            break
-        cur = cands[min(ok)[1]]
+        cur = found
     return cur
 
 
@@ -729,16 +836,16 @@ def check_corpus(ctx, scratch, stats):
     items = load_corpus()
     if not items:
         return None
-    texts = [rename_function(it["program"], f"k{i}") for i, it in enumerate(items)]
-    res = run_packs([("corpus", "\n".join(texts))], os.path.join(scratch, "corpus"), 170, parallel=1)[0]
+    files, names = pack_programs([it["program"] for it in items])
+    res = run_packs([("corpus", files)], os.path.join(scratch, "corpus"), 170, parallel=1)[0]
     if res.get("error") and not res.get("methods"):
         raise RuntimeError("corpus pack failed: " + str(res.get("error")))
     params = res["params"]
-    ms = {m["name"]: m for m in res["methods"] if (m["name"] or "").startswith("k")}
+    ms = {m["name"]: m for m in res["methods"] if m["name"] in names}
     cms = [m for m in ms.values() if comparable(m) is None]
     evaluate(cms, params)
     for i, it in enumerate(items):
-        m = ms.get(f"k{i}")
+        m = ms.get(names[i])
         stats["corpus"] += 1
         if m is None or "v" not in m:
             ctx.violation({"what": "corpus program was not analysed as a single uninterrupted frame",
@@ -820,6 +927,9 @@ def verdicts(ctx, methods, texts_by_name, scratch, stats, shrink=True):
         stats["stmts"] += len(m["stmts"])
         stats["visits"] += len(m["visits"])
         stats["cyclic" if v["cyclic"] else "acyclic"] += 1
+        stats["entry_frames(module-level)" if (m["name"] or "").startswith("top") else "callee_frames(functions)"] += 1
+        if m.get("gir_mismatch"):
+            stats["defs_table_vs_gir_mismatch_methods"] += 1
         if v["corr_diffs"]:
             stats["corr_diff_methods"] += 1
         if v["skips"]:
@@ -836,26 +946,33 @@ def verdicts(ctx, methods, texts_by_name, scratch, stats, shrink=True):
         if v["exact"]:
             stats["real_exact"] += 1
         if v["lost"] or v["dead"]:
-            fid = finding_for(v)
-            if fid is not None and fid in ctx.finding_ids("open"):
-                stats["known:" + fid] += 1
-                s0 = sorted(v["lost"])[0]
-                ctx.known(fid, f"e.g. {m['name']}: statement {s0} (line {dict(m['line']).get(s0)}) misses "
-                               f"{pretty_defs(m, v['lost'][s0])}; real in/out/visits equal frozen model ReachDef0, idealised solver passes the oracle")
+            ids = findings_for(v)
+            if ids and all(i in ctx.finding_ids("open") for i in ids):
+                for fid in sorted(ids):
+                    stats["known:" + fid] += 1
+                    if fid == "C06/kill-skipped-dead-def":
+                        s0 = sorted(v["dead"])[0]
+                        ctx.known(fid, f"e.g. {m['name']}: statement {s0} (line {dict(m['line']).get(s0)}) retains the overwritten "
+                                       f"{pretty_defs(m, v['dead'][s0])}; the frozen model ReachDef0 took the kill-skipping shortcut at statements "
+                                       f"{v['skip_stmts']} and predicts exactly these sets, idealised solver passes the oracle")
+                    else:
+                        s0 = sorted(v["lost"])[0]
+                        ctx.known(fid, f"e.g. {m['name']}: statement {s0} (line {dict(m['line']).get(s0)}) misses "
+                                       f"{pretty_defs(m, v['lost'][s0])}; real in/out/visits equal frozen model ReachDef0, idealised solver passes the oracle")
             else:
                 new_viol.append(m)
     return new_viol
 
 
-def report_violation(ctx, m, params, text, scratch, shrink=True):
+def report_violation(ctx, m, params, text, scratch, shrink=True, deadline=None):
     v = m["v"]
     prog = text
     if shrink and text:
         def still(mm):
             vv = mm["v"]
-            return bool(vv["lost"] or vv["dead"]) and finding_for(vv) is None
+            return bool(vv["lost"] or vv["dead"]) and findings_for(vv) is None
         try:
-            prog = shrink_program(text, still, scratch, params)
+            prog = shrink_program(text, still, scratch, params, rounds=40, deadline=deadline)
         except Exception as e:           # shrinking is best effort
             prog = text
     ctx.violation({
@@ -909,6 +1026,12 @@ def _run(ctx, proofs_ok, tier, scratch, stats):
                     for x in ne["lost"]:
                         if x not in nr["lost"]:
                             problems.append(f"definition {x[1]} is no longer lost at statement {x[0]} (ids relative to the first statement)")
+                    nd_e = normalise(exp["stmts"], exp["edges"], exp["defs"], exp.get("dead", []))["lost"]
+                    nd_r = normalise(m["stmts"], m["edges"], m["defs"],
+                                     [[s, list(d)] for s, ds in v["dead"].items() for d in ds])["lost"]
+                    for x in nd_e:
+                        if x not in nd_r:
+                            problems.append(f"dead definition {x[1]} is no longer retained at statement {x[0]} (ids relative to the first statement)")
             if it.get("status") == "open" and v["corr_diffs"]:
                 problems.append("real output no longer equals the frozen model's output: " + ",".join(v["corr_diffs"]))
             if problems:
@@ -924,25 +1047,46 @@ def _run(ctx, proofs_ok, tier, scratch, stats):
                 stats["corpus_notes"] += 1
                 texts.setdefault("_corpus_notes", []).append({"file": m["corpus_file"], "problems": m["corpus_problems"]})
 
-    # ---- generated packs
+    # ---- generated packs: functions called once from top level (callee frames) and module-level programs
+    #      (entry frames: every file's %unit_init is an entry point with its own space, index baseline 0)
     if tier == "quick":
-        npacks, nfun, timeout, par = 12, 12, 150, None
+        npacks, nfun, ntop, ntopn, timeout, par = 12, 12, 5, 16, 75, None
         if params0 is not None and corpus_res is not None and fingerprints_changed(corpus_res[3]):
-            npacks = 20         # an anchored source differs from the last green thorough run: look harder (scheduling only)
+            npacks, ntop = 18, 8   # an anchored source differs from the last green thorough run: look harder (scheduling only)
     else:
-        npacks, nfun, timeout, par = 120, 12, 400, None
-    packs, gen_stats, pack_funs = [], Counter(), []
+        npacks, nfun, ntop, ntopn, timeout, par = 90, 12, 30, 16, 400, None
+    packs, gen_stats, prog_of = [], Counter(), []
     sysf = systematic_functions()
     for part in (sysf[:len(sysf) // 2], sysf[len(sysf) // 2:]):
-        pack_funs.append(part)
-        packs.append((f"systematic{len(packs)}", pack_source(part)))
-    n_sys = len(sysf)
+        text = pack_source(part)
+        prog_of.append({name: function_source(text, name) for name, _, _ in part})
+        packs.append((f"systematic{len(packs)}", text))
+    systop = []
+    for name, lines, _ in sysf:
+        body = [l[4:] for l in lines[1:]]
+        if body and body[-1].startswith("return"):
+            body = body[:-1]
+        if any(l.strip().startswith("return") for l in body):
+            continue
+        systop.append("\n".join(body) + "\n")
+    files, names = pack_programs(systop)
+    prog_of.append(dict(zip(names, systop)))
+    packs.append(("systematic-toplevel", files))
+    n_sys = len(sysf) + len(systop)
     for p in range(npacks):
         sub = random.Random(ctx.rng.getrandbits(64))
         funs, st = gen_functions(sub, nfun, loops_share=0.0 if p % 4 == 3 else 0.75)
         gen_stats.update(st)
-        pack_funs.append(funs)
-        packs.append((f"pack{p}", pack_source(funs)))
+        text = pack_source(funs)
+        prog_of.append({name: function_source(text, name) for name, _, _ in funs})
+        packs.append((f"pack{p}", text))
+    for p in range(ntop):
+        sub = random.Random(ctx.rng.getrandbits(64))
+        progs, st = gen_toplevel(sub, ntopn, loops_share=0.0 if p % 3 == 2 else 0.7)
+        gen_stats.update({"toplevel:" + k: v for k, v in st.items()})
+        files, names = pack_programs(progs)
+        prog_of.append(dict(zip(names, progs)))
+        packs.append((f"toplevel{p}", files))
     results = run_packs(packs, os.path.join(scratch, "gen"), timeout, parallel=par)
     params = params0
     fingerprints = None
@@ -952,7 +1096,7 @@ def _run(ctx, proofs_ok, tier, scratch, stats):
     for p, res in enumerate(results):
         if res.get("error") and not res.get("methods"):
             stats["packs_failed"] += 1
-            skipped["pack-failed:" + str(res.get("error"))[:60]] += 1
+            skipped[f"pack-failed:{packs[p][0]}:" + str(res.get("error"))[:60]] += 1
             continue
         lian_times.append(round(res["time"], 1))
         if params is None:
@@ -962,25 +1106,27 @@ def _run(ctx, proofs_ok, tier, scratch, stats):
         fingerprints = res["fingerprints"]
         ms = []
         for m in res["methods"]:
-            if not (m["name"] or "").startswith("f"):
+            if m["name"] not in prog_of[p]:
                 continue
             why = comparable(m)
             if why:
                 skipped[why] += 1
                 continue
             m["pack"] = p
+            m["program"] = prog_of[p][m["name"]]
             ms.append(m)
         evaluate(ms, params)
         all_methods += ms
     if not all_methods:
         raise RuntimeError("no generated method could be analysed: " + json.dumps(dict(skipped)))
     nv = verdicts(ctx, all_methods, None, scratch, stats)
-    shr_budget = 2
-    for m in nv[:5]:
-        text = function_source(packs[m["pack"]][1], m["name"])
-        budget_ok = shr_budget > 0 and (tier == "thorough" or time.time() - t_start < 100)
-        report_violation(ctx, m, params, text, scratch, shrink=budget_ok)
-        shr_budget -= 1
+    # shrink the smallest violating programs (batched through lian; bounded by a deadline so that the tier's
+    # time budget holds): quick 1 program / 50 s, thorough 2 programs / 240 s each
+    nv.sort(key=lambda m: len(m["program"]))
+    for k, m in enumerate(nv[:5]):
+        do = k < (1 if tier == "quick" else 2)
+        report_violation(ctx, m, params, m["program"], scratch, shrink=do,
+                         deadline=time.time() + (50 if tier == "quick" else 240))
     stats["violating_methods"] = len(nv) + len(new_viol)
 
     # ---- coverage
@@ -994,9 +1140,10 @@ def _run(ctx, proofs_ok, tier, scratch, stats):
             distinct.add(hashlib.sha256(key.encode()).hexdigest())
     ctx.cov["evaluations"] = stats["methods"]
     ctx.cov["distinct_nontrivial"] = len(distinct)
-    ctx.cov["rule"] = (f"corpus programs first, then a fixed enumerated family of {n_sys} tiny functions (10 templates x 5 blocks, singly and all 100 ordered pairs), then generated call-free Python functions (straight-line, if/else, early return, "
-                       "break/continue, while/for-in nested <=2, 2-4 variables; 12 per packed file, each called once from top level; "
-                       f"{npacks} packs, every 4th pack loop-free), seeded by VERIF_SEED; one evaluation = one method analysed by lian's P3 "
+    ctx.cov["rule"] = (f"corpus programs first, then a fixed enumerated family of {n_sys} tiny programs (10 templates x 5 blocks, singly and all 100 ordered pairs; as functions and again as module-level files), then generated call-free Python code (straight-line incl. self-referential "
+                       "assignments x = x + y / x += 1, if/elif/else, early return, break/continue, while/for-in nested <=2, 2-4 variables) in two placements: "
+                       f"{npacks} packs of 12 functions each called once from top level (callee frames) and {ntop} packs of {ntopn} files of module-level code "
+                       "(entry frames: %unit_init, index baseline 0); every 3rd/4th pack loop-free; seeded by VERIF_SEED; one evaluation = one method analysed by lian's P3 "
                        "and compared (visit sequence, in sets, out sets) with the Lean model on the real cfg.bundle rows + oracle on the real in sets; "
                        "distinct non-trivial = distinct (CFG, defined-symbol table) with a join or loop in which some statement is reached by >= 2 definitions of one symbol")
     ctx.cov["exhaustive"] = False
@@ -1017,10 +1164,11 @@ def _run(ctx, proofs_ok, tier, scratch, stats):
     ctx.cov["monitored_hypotheses"] = {
         "skip_kill_shortcut_taken (hypothesis of C06_no_dead_defs_partial)": stats["skip_kill_taken"],
         "idealised solver not converged / isTopo false on acyclic CFG / (proved, re-checked) work list not empty at fuel end": stats["model_flags_bad"],
-        "certified fixpoint check passed on real tables but the independent oracle reports a lost/dead definition": stats["certificate_vs_oracle_disagreements"]}
+        "certified fixpoint check passed on real tables but the independent oracle reports a lost/dead definition": stats["certificate_vs_oracle_disagreements"],
+        "methods where the name a GIR row assigns differs from the defined-symbol table fed to model and oracle": stats["defs_table_vs_gir_mismatch_methods"]}
     sample = []
-    for m in all_methods[:2]:
-        sample.append({"function": function_source(packs[m["pack"]][1], m["name"]),
+    for m in all_methods[:1] + [x for x in all_methods if (x["name"] or "").startswith("top")][-1:]:
+        sample.append({"function": m["program"],
                        "real_visits": m["visits"], "lost": {str(s): pretty_defs(m, d) for s, d in m["v"]["lost"].items()},
                        "known_finding": finding_for(m["v"])})
     ctx.cov["samples"] = sample
@@ -1034,6 +1182,7 @@ def _run(ctx, proofs_ok, tier, scratch, stats):
     corr_methods = [m for m in all_methods if m["v"]["corr_diffs"]]
     flags_bad = [m for m in all_methods if (not m["v"]["finished"]) or (not m["v"]["ideal_converged"])
                  or (not m["v"]["cyclic"] and not m["v"]["ideal_topo"])
+                 or m.get("gir_mismatch")
                  or (m["v"]["real_fixpoint"] and (m["v"]["lost"] or (m["v"]["skips"] == 0 and not m["v"]["corr_diffs"] and m["v"]["dead"])))]
     notes = texts.get("_corpus_notes")
     if not ctx.violations and (corr_methods or flags_bad or not proofs_ok or notes or wl_diff):
@@ -1045,10 +1194,11 @@ def _run(ctx, proofs_ok, tier, scratch, stats):
             "worklist_correspondence": wl_diff,
             "correspondence": None if m is None else {
                 "model": "LianVerif.ReachDef.rd variant=pinned", "function": m["name"],
-                "program": function_source(packs[m["pack"]][1], m["name"]) if "pack" in m else m.get("program"),
+                "program": m.get("program"),
                 "differs_in": m["v"]["corr_diffs"], "real_visits": m["visits"], "model_visits": m["v"]["model_visits"],
                 "real_in": m["real_in"], "model_in": m["v"]["model_in"],
                 "flags": {k: m["v"][k] for k in ("finished", "ideal_converged", "ideal_topo", "skips", "real_fixpoint")},
+                "defined_name_per_GIR_row_vs_defined_symbol_table": m.get("gir_mismatch"),
                 "methods_differing": len(corr_methods)}},
             no_input=True)
 
@@ -1064,20 +1214,21 @@ def replay(rp):
     scratch = os.path.join(common.SCRATCH_ROOT, f"lv-{os.getpid()}")
     os.makedirs(scratch, exist_ok=True)
     try:
-        res = run_packs([("replay", rename_function(prog, "k0"))], scratch, 170, parallel=1)[0]
+        files, names = pack_programs([prog])
+        res = run_packs([("replay", files)], scratch, 170, parallel=1)[0]
         if res.get("error") and not res.get("methods"):
             print(json.dumps({"error": res.get("error")}))
             return 2
-        ms = [m for m in res["methods"] if m["name"] == "k0" and comparable(m) is None]
+        ms = [m for m in res["methods"] if m["name"] == names[0] and comparable(m) is None]
         if not ms:
             print(json.dumps({"error": "function not analysed as a single uninterrupted frame"}))
             return 2
         evaluate(ms, res["params"])
         v = ms[0]["v"]
         if rp.get("no_failing_input_found"):
-            bad = bool(v["corr_diffs"]) or bool(v["lost"] or v["dead"]) and finding_for(v) is None
+            bad = bool(v["corr_diffs"]) or bool(v["lost"] or v["dead"]) and findings_for(v) is None
         else:
-            bad = bool(v["lost"] or v["dead"]) and finding_for(v) is None
+            bad = bool(v["lost"] or v["dead"]) and findings_for(v) is None
         print(json.dumps({"lost": {str(s): pretty_defs(ms[0], d) for s, d in v["lost"].items()},
                           "dead": {str(s): pretty_defs(ms[0], d) for s, d in v["dead"].items()},
                           "correspondence_differs_in": v["corr_diffs"], "known_finding": finding_for(v),
